@@ -194,9 +194,11 @@ type CheckOutcome struct {
 
 // checkFunction verifies one function for a property and appends results.
 func (g *Gen) checkFunction(name string, p *PropConfig, bl *Baseline, tier string, work string, out *CheckOutcome, mu *sync.Mutex) {
-	timeout := 30 * time.Second
+	// per-obligation limit: generous, because a claimed obligation that runs out of time on a slow
+	// machine would be a false alarm (the slowest one today needs about 16 s; passing runs do not wait)
+	timeout := 60 * time.Second
 	if tier == "thorough" {
-		timeout = 90 * time.Second
+		timeout = 120 * time.Second
 	}
 	fn := g.funcs[baseFuncName(name)]
 	if fn == nil {
